@@ -965,20 +965,6 @@ func (c *Conn) handleBdat(arg string) {
 		return
 	}
 
-	if !c.fromReceived || len(c.recipients) == 0 {
-		c.writeResponse(502, EnhancedCode{5, 5, 1}, "Missing RCPT TO command.")
-		return
-	}
-
-	last := false
-	if len(args) == 2 {
-		if !strings.EqualFold(args[1], "LAST") {
-			c.writeResponse(501, EnhancedCode{5, 5, 4}, "Unknown BDAT argument")
-			return
-		}
-		last = true
-	}
-
 	// ParseUint instead of Atoi so we will not accept negative values.
 	size, err := strconv.ParseUint(args[0], 10, 32)
 	if err != nil {
@@ -986,11 +972,31 @@ func (c *Conn) handleBdat(arg string) {
 		return
 	}
 
+	// From here on the chunk size is known: a chunk that is refused must
+	// still be read and discarded, the client may have pipelined it.
+
+	if !c.fromReceived || len(c.recipients) == 0 {
+		c.writeResponse(502, EnhancedCode{5, 5, 1}, "Missing RCPT TO command.")
+		c.discardChunk(size)
+		return
+	}
+
+	last := false
+	if len(args) == 2 {
+		if !strings.EqualFold(args[1], "LAST") {
+			c.writeResponse(501, EnhancedCode{5, 5, 4}, "Unknown BDAT argument")
+			c.discardChunk(size)
+			c.reset()
+			return
+		}
+		last = true
+	}
+
 	if c.server.MaxMessageBytes != 0 && c.bytesReceived+int64(size) > c.server.MaxMessageBytes {
 		c.writeResponse(552, EnhancedCode{5, 3, 4}, "Max message size exceeded")
 
 		// Discard chunk itself without passing it to backend.
-		io.Copy(ioutil.Discard, io.LimitReader(c.text.R, int64(size)))
+		c.discardChunk(size)
 
 		c.reset()
 		return
@@ -1090,6 +1096,13 @@ func (c *Conn) handleBdat(arg string) {
 
 		c.writeResponse(250, EnhancedCode{2, 0, 0}, "Continue")
 	}
+}
+
+// discardChunk reads and drops a BDAT chunk that is not passed to the backend.
+func (c *Conn) discardChunk(size uint64) {
+	c.lineLimitReader.LineLimit = 0
+	io.Copy(ioutil.Discard, io.LimitReader(c.text.R, int64(size)))
+	c.lineLimitReader.LineLimit = c.server.MaxLineLength
 }
 
 // ErrDataReset is returned by Reader pased to Data function if client does not
